@@ -6,6 +6,7 @@ mod actor;
 mod codec;
 mod docs;
 mod heads;
+mod livesync;
 mod query;
 mod replica;
 mod session;
@@ -104,6 +105,11 @@ fn main() {
             let mut rng = Rng::new(seed);
             let scheds = args.kv.get("schedules").map(|p| read_schedules(p)).unwrap_or_default();
             syncsession::run(&w, seed, &mut rng, scheds, args.num("n", 60) as usize, &mut trace, &mut sum);
+        }
+        "livesync" => {
+            let w = std::sync::Arc::new(World::new(seed, 3, 3));
+            let scheds = args.kv.get("schedules").map(|p| read_schedules(p)).unwrap_or_default();
+            livesync::run(w, seed, scheds, &mut trace, &mut sum);
         }
         "docs" => {
             let w = World::new(seed, 3, 7);
